@@ -12,7 +12,7 @@ MODEL_OPS = 'FitModel.fit2_pkg / fit3_pkg on the base source and its variants'
 RULE = ('flag vectors enumerated exhaustively over {0,1,2,3,4,9}^n (quick: n<=3, plus 300 sampled n in {4,5}; thorough: all n<=5) crossed with random photometry; '
         'each case fits, on ONE Fitter: the base source, the same source with hostile values (-999, 0, negative, 1e+-30) in its flag-0/9 bands, '
         'with confidence-0 limits turned into flag 0, with flag-1 bands rewritten as flag 4 (transformed values), and with changed limit values; '
-        'both fitting modes (mode follows the number of fitted bands: 2-D needs >=2, 3-D >=1). non-trivial = at least one variant differs from the base source.')
+        '40 (400) sources with limits placed exactly on the fitted model (no penalty is due); both fitting modes (mode follows the number of fitted bands: 2-D needs >=2, 3-D >=1). non-trivial = at least one variant differs from the base source.')
 EXHAUSTIVE = {'quick': True, 'thorough': True}
 ASSUMPTIONS = ['fits of variants are compared with each other exactly where the same arithmetic is expected (NaN-aware) and with 1e-9 tolerance for the flag-4 rewrite',
                'limit bands whose prediction is within 1e-9 of the limit are not judged (near-tie filter)']
@@ -65,6 +65,24 @@ def generate(tier, seed):
     if tier == 'quick':
         vecs += [tuple(rng.choice(fitcase.FLAGS) for _ in range(rng.choice([4, 5]))) for _ in range(300)]
     cases = []
+    # limits placed EXACTLY on the fitted model: not on the forbidden side, so no penalty (the only exact ties that are compared)
+    import numpy as np
+    for k in range(40 if tier == 'quick' else 400):
+        c = fitcase.gen_case(rng, '2d', nb=4, nm=rng.randint(1, 4), flags=[4, 4, rng.choice([2, 3]), rng.choice([2, 3])])
+        m = rng.randrange(len(c['names']))
+        c['av_range'] = [0.0, 40.0]
+        for j in range(4):
+            if j < 2:
+                c['src']['flux'][j] = float(np.log10(c['flux'][m][j]))      # the model's own log flux: the fit of model m is exact, A_V = scale = 0
+                c['src']['err'][j] = 0.0625
+            else:
+                c['src']['flux'][j] = c['flux'][m][j]                        # the limit sits exactly at the model flux
+                c['src']['err'][j] = rng.choice([0.9, 1.0, 0.5])
+        c['kind'] = 'on_limit'
+        c['planted'] = c['names'][m]
+        off = dict(c['src'], flags=[4, 4, 0, 0])
+        c['variants'] = {'limits_off': off}
+        cases.append(c)
     reps = 1 if tier == 'quick' else 2
     for fl in vecs:
         nfit = sum(1 for f in fl if f in (1, 4))
@@ -161,6 +179,15 @@ def judge(case, im, mo):
             elif not close(base['av'][i], r[0], 1e-6, 1e-7) or not close(base['sc'][i], r[1], 1e-6, 1e-7):
                 disagree.append('base fit of model %d: implementation (%r, %r), model (%r, %r)' % (mid, base['av'][i], base['sc'][i], float(r[0]), float(r[1])))
                 break
+    if case.get('kind') == 'on_limit' and finite:
+        disagree = []
+        i = base['model_name'].index(case['planted'])
+        j = im['limits_off']['model_name'].index(case['planted'])
+        if abs(base['chi2'][i] - im['limits_off']['chi2'][j]) > 1e-12 or base['chi2'][i] > 1e-12:
+            fail.append('onlimit: model %s lies exactly on the limits (not on the forbidden side) but its chi2 is %r (%r with the limits flagged 0)'
+                        % (case['planted'], base['chi2'][i], im['limits_off']['chi2'][j]))
+        # (the extracted model is not consulted here: its log10 oracle is OCaml's, one ulp away from numpy's, so it cannot reproduce an exact tie)
+        return dict(disagree=disagree, fail=fail, nontrivial=True, tags=tags + ['on_limit'])
     # --- the clauses, between implementation runs
     if not _same(base, im['base_again']):
         fail.append('history: refitting the base source on the same fitter gives a different result')
